@@ -8,7 +8,8 @@ MODULE = "PLS.Props.C17"
 THEOREMS = ["PLS.C17_scan_exact", "PLS.C17_never", "PLS.C17_always", "PLS.C17_module_names_never",
             "PLS.C17_bound_earlier_never", "PLS.C17_visited_forms",
             "PLS.C17_test_parameters_never", "PLS.C17_fixture_parameters_never",
-            "PLS.C17_declared_is_parameters"]
+            "PLS.C17_declared_is_parameters", "PLS.C17_module_names_position_independent",
+            "PLS.C17_module_names_are_whole_module"]
 RULE = ("product of function shapes (no/one/many parameters, defaults, annotations, return annotation, multi-line "
         "signatures with and without trailing comma, methods, async, decorators, a following function) and body forms "
         "(26: call target/argument, attribute base, operands, subscripts, collection elements, return/assert/if/for/"
